@@ -10,6 +10,7 @@
    the correspondence harness only. *)
 From Coq Require Import List NArith Bool.
 From Wesh Require Import Model.Store Model.C02_Ratchet Model.C10_Crash Proofs.C10_Crash.
+From Wesh Require Import Model.C11_Keys Model.C10_Keys Proofs.C10_Keys.
 Import ListNotations.
 Open Scope N_scope.
 
@@ -88,9 +89,40 @@ Theorem C10_advance_not_crash_safe_refuted :
   op_out W (apply_muts s0 ms) (ROpen 1 3 101) = OOk 101.
 Proof. exact advance_lost_after_crash. Qed.
 
+(* "Account, device and group keys read after restart are the ones in use before."  The keystore of
+   device_keystore_wrapper.go (Model.C11_Keys.kstep, tied to the code by C11's stream) with a stop between
+   any two of its puts (Model.C10_Keys.kstates): an operation [o] - account key, proof key, device and
+   member keys of a group of any type, contact group - has returned [r]; any operations follow; the process
+   stops inside ANY operation, after any number of its writes; after the restart any operations follow:
+   [o] returns [r] again and writes nothing.  (An import is not an [o]: it answers once.) *)
+Theorem C10_named_keys_survive_a_stop :
+  forall st o st1 r mid oc c later,
+    is_import o = false -> kstep st o = (st1, r) ->
+    In c (kstates (krun st1 mid) oc) ->
+    kstep (krun c later) o = (krun c later, r).
+Proof. exact named_keys_survive_a_stop. Qed.
+
+(* the states a stop can leave are the states between the puts of the operation: the first is the state
+   before, the last the state after, and each lies between the two *)
+Theorem C10_stop_states_are_between :
+  forall st o,
+    (hd_error (kstates st o) = Some st /\ (is_import o = false -> last (kstates st o) st = fst (kstep st o))) /\
+    (forall c, In c (kstates st o) -> extends st c /\ (is_import o = false -> extends c (fst (kstep st o)))).
+Proof. intros st o. exact (conj (kstates_ends st o) (kstates_between st o)). Qed.
+
+(* observation (no key that was in use is lost): an import stopped between its two puts is not resumed *)
+Example C10_half_import_observation :
+  let st := {| ks := []; next := 1 |} in
+  let o := OImport (BKey (Fresh 101)) (BKey (Fresh 102)) in
+  let c := {| ks := [(NAccount, Fresh 101)]; next := 1 |} in
+  In c (kstates st o) /\ snd (kstep c o) = RRefused /\ snd (kstep c OExport) = RPair (Fresh 101) (Fresh 1).
+Proof. exact half_import_observation. Qed.
+
 Print Assumptions C10_advance_not_crash_safe_refuted.
 Print Assumptions C10_crash_safe.
 Print Assumptions C10_exec_safe.
 Print Assumptions C10_holds_opens.
 Print Assumptions C10_seal_counter_persisted.
 Print Assumptions C10_no_counter_reuse_after_restart.
+Print Assumptions C10_named_keys_survive_a_stop.
+Print Assumptions C10_stop_states_are_between.
